@@ -10,6 +10,7 @@ package main
 import (
 	"bufio"
 	"bytes"
+	"crypto/ed25519"
 	"encoding/json"
 	"fmt"
 	"math/rand"
@@ -25,6 +26,7 @@ import (
 	"github.com/lidofinance/dc4bc/airgapped"
 	"github.com/lidofinance/dc4bc/client/api/dto"
 	"github.com/lidofinance/dc4bc/client/types"
+	"github.com/lidofinance/dc4bc/fsm/types/requests"
 	"github.com/lidofinance/dc4bc/storage"
 )
 
@@ -247,6 +249,38 @@ func restoreObs(c *cluster, obs *vnode, from string) error {
 }
 
 // finalState: everything the property talks about: pool, tombstones, rounds, signatures, offset, what was posted
+// stripPubPoly: the log as version 0.1.4 wrote it: master-key announcements without PubPolyBz, signed by their senders
+func stripPubPoly(c *cluster, dump []storage.Message) []storage.Message {
+	keys := map[string]ed25519.PrivateKey{}
+	for _, nd := range c.nodes {
+		keys[nd.name] = nd.kp.Priv
+	}
+	out := make([]storage.Message, len(dump))
+	copy(out, dump)
+	for i, m := range out {
+		if m.Event != "event_dkg_master_key_confirm_received" {
+			continue
+		}
+		var req requests.DKGProposalMasterKeyConfirmationRequest
+		if json.Unmarshal(m.Data, &req) != nil {
+			continue
+		}
+		req.PubPolyBz = nil
+		bz, err := json.Marshal(req)
+		priv, ok := keys[m.SenderAddr]
+		if err != nil || !ok {
+			continue
+		}
+		// only what the sender really signed is re-signed in its old form (a forged announcement stays forged)
+		if !ed25519.Verify(priv.Public().(ed25519.PublicKey), m.Data, m.Signature) {
+			continue
+		}
+		out[i].Data = bz
+		out[i].Signature = ed25519.Sign(priv, bz)
+	}
+	return out
+}
+
 func finalState(c *cluster, obs *vnode, boardFrom int) string {
 	off, _ := obs.st.inner.LoadOffset()
 	var posted []string
@@ -294,7 +328,13 @@ func (r *schedRun) scenario(outDir string, sc schedScenario, n, t int) {
 	}
 	boardFrom := len(c.boardMessages())
 	r.st.Scenarios++
-	poll := func(nd *vnode) error { _, err := c.pollOnce(nd, pollMax); return err }
+	poll := func(nd *vnode) error {
+		evs, err := c.pollOnce(nd, pollMax)
+		if os.Getenv("VERIF_SCHED_DEBUG") != "" {
+			fmt.Fprintf(os.Stderr, "poll: %+v %v\n", evs, err)
+		}
+		return err
+	}
 	// the two serial orders
 	serial := func(order [2]func(*vnode) error) string {
 		if err := restoreObs(c, obs, snap); err != nil {
@@ -481,14 +521,22 @@ func runSchedDiff(outDir string, seed int64, tier string) {
 		}}
 	// the observed node has lost its state and is being re-initialised: the operator submits the airgapped machine's answer to
 	// the reinit operation (a read-modify-write of the stored round) while the poller opens another round
-	mkFinishReinit := func(sameRound bool) schedScenario {
+	mkFinishReinit := func(sameRound, oldFormat bool) schedScenario {
 		name := "ProcessOperation(result of the reinit operation) || poll(opening proposal of another round)"
 		if sameRound {
-			name = "ProcessOperation(result of the reinit operation) || poll(signing proposal for the re-initialised round)"
+			name = "ProcessOperation(result of the reinit operation) || poll(signing proposal and partial signatures for the re-initialised round)"
+		}
+		if oldFormat {
+			// a 0.1.4 log: the master-key announcements carry no public polynomial, so the round gets it ONLY from the
+			// answer to the reinit operation (in a current log the replay has already put the same value there)
+			name += " [0.1.4-format log]"
 		}
 		return schedScenario{name: name,
 			prepare: func(c *cluster, obs *vnode, round string) (func(n *vnode) error, int, error) {
 				dump := c.boardMessages()
+				if oldFormat {
+					dump = stripPubPoly(c, dump)
+				}
 				// a fresh node state and a fresh machine (same mnemonic) for the observed participant
 				obs.ldb.VerifClose()
 				obs.stg.Close()
@@ -554,15 +602,23 @@ func runSchedDiff(outDir string, seed int64, tier string) {
 				if string(res.Event) != string(types.OperationProcessed) {
 					return nil, 0, fmt.Errorf("the machine answered the reinit operation with event %q", res.Event)
 				}
+				pollMax := 1
 				if sameRound {
 					if err := c.proposeData(c.nodes[1], round, map[string][]byte{"after": []byte("a batch proposed while the reinitialisation is finished")}); err != nil {
 						return nil, 0, err
 					}
+					// the others answer the proposal: the tick of the observed node brings SEVERAL messages of the round the
+					// request updates (the proposal and the others' partial signatures), and the request can fall between any two
+					for _, nd := range c.nodes[1:] {
+						c.pollOnce(nd, 0)
+						c.answerAll(nd)
+					}
+					pollMax = 3
 				} else if _, err := c.startDKG(2); err != nil {
 					return nil, 0, err
 				}
 				api := func(n *vnode) error { return n.svc.ProcessOperation(opToDTO(&res)) }
-				return api, 1, nil
+				return api, pollMax, nil
 			}}
 	}
 	// in the middle of the key generation: the observed node submits its machine's answer to one step while the poller
@@ -607,10 +663,13 @@ func runSchedDiff(outDir string, seed int64, tier string) {
 				return nil, 0, fmt.Errorf("the observed node never got a %s operation", step)
 			}}
 	}
-	scs := []schedScenario{lateAnswer, approve, reset, mkFinishReinit(false), mkFinishReinit(true),
+	scs := []schedScenario{lateAnswer, approve, reset, mkFinishReinit(false, false), mkFinishReinit(true, false), mkFinishReinit(true, true),
 		mkMidDKG("state_dkg_commits_await_confirmations"), mkMidDKG("state_dkg_deals_await_confirmations"),
 		mkMidDKG("state_dkg_responses_await_confirmations"), mkMidDKG("state_dkg_master_key_await_confirmations")}
 	for _, sc := range scs {
+		if only := os.Getenv("VERIF_SCHED_ONLY"); only != "" && !strings.Contains(sc.name, only) {
+			continue
+		}
 		r.scenario(outDir, sc, 3, 2)
 	}
 	writeJSON(filepath.Join(outDir, "stats.json"), r.st)
